@@ -6,6 +6,7 @@ import (
 	"fmt"
 	"go/token"
 	"go/types"
+	"regexp"
 	"strings"
 
 	"golang.org/x/tools/go/ssa"
@@ -148,6 +149,14 @@ func (e *Enc) call(x *ssa.Call) {
 	// closures created in this function: inline
 	if mc, ok := e.closures()[c.Value]; ok {
 		fn := mc.Fn.(*ssa.Function)
+		if _, order := findLoops(fn); len(order) > 0 {
+			// a closure with a loop cannot be inlined (its loop has no place for invariants). It is abstracted by its write
+			// set instead: accepted only if it writes nothing but captured variables and its own locals and calls only
+			// effect-free callees; the captured variables it writes are havocked and its results are unconstrained.
+			if e.abstractClosureCall(x, fn, mc, cc) {
+				return
+			}
+		}
 		var as []string
 		for _, a := range c.Args {
 			as = append(as, e.val(a))
@@ -980,4 +989,125 @@ func (e *Enc) pureExternal(x ssa.Value, cc *callCtx) bool {
 	g.usedExt["pure-function:"+cc.name] = true
 	e.setResults(x, cc.sig, res)
 	return true
+}
+
+// abstractClosureCall: sound over-approximation of a call to a loop-carrying closure (see call()). Nothing inside the closure
+// is an obligation of the enclosing function (its panics and termination are not checked); recorded in Root.abstracted.
+func (e *Enc) abstractClosureCall(x *ssa.Call, fn *ssa.Function, mc *ssa.MakeClosure, cc *callCtx) bool {
+	writes := map[int]bool{}
+	why := ""
+	rootOf := func(v ssa.Value) ssa.Value {
+		for {
+			switch y := v.(type) {
+			case *ssa.FieldAddr:
+				v = y.X
+			case *ssa.IndexAddr:
+				v = y.X
+			default:
+				return v
+			}
+		}
+	}
+	if len(fn.AnonFuncs) > 0 {
+		why = "nested closure"
+	}
+	for _, b := range fn.Blocks {
+		for _, ins := range b.Instrs {
+			switch y := ins.(type) {
+			case *ssa.Store:
+				switch r := rootOf(y.Addr).(type) {
+				case *ssa.FreeVar:
+					for i, fv := range fn.FreeVars {
+						if fv == r {
+							writes[i] = true
+						}
+					}
+				case *ssa.Alloc:
+				default:
+					why = "store through " + r.Name()
+				}
+			case *ssa.MapUpdate, *ssa.Send, *ssa.Go, *ssa.Defer, *ssa.Select:
+				why = fmt.Sprintf("%T", y)
+			case *ssa.Call:
+				c := &y.Call
+				if _, ok := c.Value.(*ssa.Builtin); ok {
+					continue
+				}
+				var callee *ssa.Function
+				if c.IsInvoke() {
+					callee = e.r.v.resolveInvokeQuiet(e, c)
+				} else {
+					callee = c.StaticCallee()
+				}
+				if callee != nil && inRepo(callee) {
+					ct := e.r.v.specs.Contracts[funcKey(callee)]
+					if ct == nil || !modifiesNothing(ct) {
+						why = "calls " + callee.Name() + ", which has no contract with 'modifies nothing'"
+					} else {
+						e.r.v.noteCallee(e.r, ct)
+					}
+					continue
+				}
+				n := calleeNameStatic(c)
+				pure := isSinkName(n) || effectFreeExtRe.MatchString(n)
+				for _, p := range purePkgs {
+					if strings.HasPrefix(n, p) {
+						pure = true
+					}
+				}
+				if !pure {
+					why = "calls " + n
+				}
+			}
+		}
+	}
+	if why != "" {
+		e.r.errorf("needs contract: closure %s has loops and cannot be abstracted (%s)", fn.Name(), why)
+		return false
+	}
+	for i := range fn.FreeVars {
+		if !writes[i] || i >= len(mc.Bindings) {
+			continue
+		}
+		l := e.locOf(mc.Bindings[i])
+		if l == nil || len(l.Path) != 0 {
+			e.r.errorf("needs contract: closure %s writes a captured variable that is not a whole cell", fn.Name())
+			return false
+		}
+		e.store(l, e.havoc(l.T, e.pfx+"cl_"+mangle(fn.FreeVars[i].Name())))
+	}
+	var res []string
+	for i := 0; i < cc.sig.Results().Len(); i++ {
+		res = append(res, e.havoc(cc.sig.Results().At(i).Type(), e.pfx+"clres"))
+	}
+	e.setResults(x, cc.sig, res)
+	e.r.abstracted = appendUnique(e.r.abstracted, fn.String())
+	return true
+}
+
+// external callees with an encoder rule that have no effect on any modelled state (error construction, formatting)
+var effectFreeExtRe = regexp.MustCompile(`^(github\.com/cosmos/cosmos-sdk/types/errors\.(Wrap|Wrapf|Register)|cosmossdk\.io/errors\.(Wrap|Wrapf)|fmt\.(Sprintf|Sprint|Errorf)|errors\.New|google\.golang\.org/grpc/status\.(Error|Errorf)|\(error\)\.Error)$`)
+
+func modifiesNothing(ct *Contract) bool {
+	if ct.Accessor || ct.ModAll {
+		return false
+	}
+	if len(ct.Modifies) == 0 {
+		return false
+	}
+	for _, m := range ct.Modifies {
+		if !(m.E != nil && m.E.Op == "id" && m.E.S == "nothing") {
+			return false
+		}
+	}
+	return true
+}
+
+func appendUnique(xs []string, s string) []string {
+	for _, x := range xs {
+		if x == s {
+			return xs
+		}
+	}
+	return append(xs, s)
 }
